@@ -147,6 +147,16 @@ def is_term(f, env):
 
 
 def gen_reuse_case(rng):
+    """`gen_reuse_case1` with at most two since / until operators in the inlined formula (the point-wise reference semantics is
+    exponential in their nesting; the sub-stream is about the object that is used again, not about deep formulas)."""
+    for _ in range(50):
+        c = gen_reuse_case1(rng)
+        if sum(1 for x in F.subformulas(c["f"]) if x[0] in ("t2", "tb2")) <= 2 and F.size(c["f"]) <= 40:
+            break
+    return c
+
+
+def gen_reuse_case1(rng):
     """A modular specification `p0 = ..; [p1 = ..;] out = ..` in which an assignment after the first one contains a partial
     term (sqrt x, ln x, 1 / x) over a variable, and a batch of traces for one object of it: the variable of the partial term
     takes only values of the term's domain in the `clean` traces and one value outside of it in the others."""
@@ -403,7 +413,7 @@ def extension_stream(ctx):
 def run(ctx):
     explore(ctx, ctx.subrng("off-c"), ctx.budget(1200, 12000))
     if len(ctx.violations) < 3:
-        explore_reuse(ctx, ctx.subrng("off-c/reuse"), ctx.budget(60, 600))
+        explore_reuse(ctx, ctx.subrng("off-c/reuse"), ctx.budget(36, 600))
 
 
 def search(ctx):
